@@ -147,11 +147,20 @@ def c08(ctx, case, io):
             flat.append((k, dict(st["outer"], interrupted=True), res))
         else:
             flat.append((k, st, res))
+    acked = set()      # (repo, digest) the registry acknowledged as stored (201)
     for k, st, res in flat:
         if res.get("panic") or ("status" not in res and st["kind"] not in ("expire", "prunecount", "sesscount", "snapshot", "restart")):
             continue
         kind, status = st["kind"], res.get("status")
         repo = st.get("repo")
+        if status == 201:
+            for d_ in (st.get("digest"), st.get("mount"), hdr(res, "Docker-Content-Digest")):
+                if d_:
+                    acked.add((repo, d_))
+        if kind == "blobget" and status in (200, 206) and (repo, st["arg"]) not in acked and not case.get("seed"):
+            # (no partial or refused content ever becomes a blob: what can be pulled was acknowledged by a 201)
+            ctx.violation("blob %s of %s can be pulled although no push of it was ever acknowledged (content of a refused or unfinished upload became a blob)" % (st["arg"][:26], repo),
+                          hist(case, k, res), "C08:unacknowledged-blob")
         if st.get("interrupted"):
             # the session was cancelled / expired while this request's body was arriving: it must not succeed
             s = find(st)
